@@ -2,6 +2,7 @@ package main
 
 import (
 	"fmt"
+	"math"
 	"math/rand"
 	"os"
 	"sort"
@@ -24,9 +25,10 @@ import (
 //   W,<inv>,<resp>,<writer>,<node>,<n|e>,<key>,<time>,<ok|err>      acknowledged write of one point (type v / role)
 //   R,<inv>,<resp>,<reader>,<node>,<t0>/<t1>/<t2>/<trole>            read: time of the point of each identity, - if absent
 //   V,<inv>,<resp>,<ok|err>                                          admin.storeVerify
+//   X,<inv>,<resp>,<writer>,<refused|timeout|accepted>               a request the store must refuse (NaN, self edge, cycle)
 
 func init() {
-	register("C20", &Prop{Gen: c20Gen, Run: c20Run})
+	register("C20", &Prop{Gen: c20Gen, Run: c20Run, Init: func() { caseTimeout = 60 * time.Second }})
 }
 
 var c20Seq int
@@ -83,6 +85,30 @@ func c20Run(c string) string {
 				pl := places[r.Intn(len(places))]
 				key := fmt.Sprint(r.Intn(3))
 				tm := int64(1000 + (i*16+r.Intn(4))*64 + w) // distinct per writer, roughly increasing, overlapping between writers
+				if r.Intn(12) == 0 {
+					// a request the store must refuse (C05): under load it must still be ANSWERED, with the error, not left to
+					// time out; it changes nothing, so the history oracle is not affected
+					inv := tick()
+					var err error
+					switch r.Intn(3) {
+					case 0:
+						err = client.SendNodePoints(nc, pl.id, data.Points{{Type: "v", Key: key, Value: math.NaN(), Time: time.Unix(0, tm)}}, true)
+					case 1:
+						err = client.SendEdgePoints(nc, pl.id, pl.id, data.Points{{Type: data.PointTypeNodeType, Text: "device", Time: time.Unix(0, tm)}}, true)
+					default:
+						err = client.SendEdgePoints(nc, "G", "c", data.Points{{Type: data.PointTypeTombstone, Time: time.Unix(0, tm)}, {Type: data.PointTypeNodeType, Text: "device", Time: time.Unix(0, tm)}}, true)
+					}
+					resp := tick()
+					st := "accepted"
+					if err != nil {
+						st = "refused"
+						if strings.Contains(err.Error(), "timeout") {
+							st = "timeout"
+						}
+					}
+					add(fmt.Sprintf("X,%d,%d,%d,%s", inv, resp, w, st))
+					continue
+				}
 				inv := tick()
 				var err error
 				kind := "n"
@@ -156,7 +182,7 @@ func c20Run(c string) string {
 	go func() { wg.Wait(); close(done) }()
 	select {
 	case <-done:
-	case <-time.After(5 * time.Second):
+	case <-time.After(25 * time.Second): // about a second on an idle machine; generous, so that a loaded machine is not mistaken for a deadlock
 		mu.Lock()
 		n := len(events)
 		mu.Unlock()
@@ -167,7 +193,7 @@ func c20Run(c string) string {
 	}
 	// stop: Server.Run must return, and the file must open again
 	stopRes := "returned"
-	if !srv.haltWithin(4 * time.Second) {
+	if !srv.haltWithin(20 * time.Second) {
 		stopRes = "hang"
 	}
 	stopped = true
